@@ -412,6 +412,39 @@ func variantPairs(tier string) []pairCase {
 		pairCase{"ATGCCC-AAATTA", "ATGCCTGAAATTA", "SNP then insertion"},
 		pairCase{"ATGCCCAAATTA--", "ATGCCCAAATTAGG", "insertion at the very end"},
 		pairCase{"--ATGCCCAAATTA", "GGATGCCCAAATTA", "insertion before the first base"})
+	// a deletion that includes the first reference base is not reported - also when alignment columns precede it
+	// (another sequence's or the query's own insertion before base 1)
+	out = append(out,
+		pairCase{"--ATGCCCAAATTA", "----GCCCAAATTA", "both-gap columns, then a deletion of the first two bases"},
+		pairCase{"--ATGCCCAAATTA", "GG--GCCCAAATTA", "insertion before base 1, then a deletion of the first two bases"},
+		pairCase{"-ATGCCCAAATTA", "--TGCCCAA-TTA", "both-gap column, deletion of the first base, deletion of base 9"},
+		pairCase{"ATGCCCAAATT--A", "ATGCCCAAATTGG-", "insertion, then a deletion of the last base"},
+		pairCase{"ATGCCCAAATTA--", "ATGCCCAAAT----", "deletion of the last two bases before trailing both-gap columns"})
+	// a deletion between gap columns: its start is converted with the alignment-to-reference table
+	for _, lay := range [][3]int{{2, 5, 7}, {1, 3, 4}, {4, 8, 10}, {3, 6, 11}} {
+		for _, bothGap := range []bool{false, true} {
+			var r, q []byte
+			for p := 0; p <= len(ref); p++ {
+				if p == lay[0] || p == lay[2] {
+					r = append(r, '-', '-')
+					if bothGap && p == lay[0] {
+						q = append(q, '-', '-')
+					} else {
+						q = append(q, 'G', 'T')
+					}
+				}
+				if p < len(ref) {
+					r = append(r, ref[p])
+					if p == lay[1] {
+						q = append(q, '-')
+					} else {
+						q = append(q, ref[p])
+					}
+				}
+			}
+			out = append(out, pairCase{string(r), string(q), fmt.Sprintf("gap columns after %d and %d around a deletion of base %d (first run both-gap=%v)", lay[0], lay[2], lay[1]+1, bothGap)})
+		}
+	}
 	return out
 }
 
